@@ -15,6 +15,7 @@ RULE = ("complete reachable graph of core x adversary x refresh monitor (all sch
 
 SDR = dict(nphases=1, memtype="SDR", databits=16, colbits=8, watch=None, queue_check=False, refresh=True, refresh_mon=True)
 DDR3 = dict(nphases=4, memtype="DDR3", databits=8, colbits=10, cl=6, cwl=5, RL=3, WL=1, watch=None, queue_check=False, refresh=True, refresh_mon=True)
+LPDDR4 = dict(nphases=8, memtype="LPDDR4", databits=16, colbits=10, cl=6, cwl=4, RL=3, WL=1, watch=None, queue_check=False, refresh=True, refresh_mon=True)
 ADV = {
     "hammerR": [dict(kind="adv", cmds=[["R", 0]])],
     "hammerW": [dict(kind="adv", cmds=[["W", 0]])],
@@ -42,7 +43,14 @@ def configs(tier):
         add("ddr3x4-p1", "altrows", **DDR3)
         add("ddr3x4-p2", "mix1bank", postponing=2, **DDR3)
         add("sdr-zqcs-p1", "hammerR", tzqcs=3, zqcs_period=250, zq_mon=True, **SDR)
+        # two ranks: the refresh sequence (precharge-all, REF, ZQCS) must reach every rank; rows of rank 1 (banks 2, 3) are left open by the traffic
+        add("sdr-2rank-p1", "altrows", nranks=2, bankbits=1, banks=(2, 3), **SDR)
+        add("sdr-2rank-zqcs-p1", "hammerR", nranks=2, bankbits=1, banks=(2, 3), tzqcs=3, zqcs_period=250, zq_mon=True, **SDR)
+        # LPDDR4 (8 phases): the PHY turns DFI REF with A10 low into a per-bank refresh, so the refresher's REF must carry A10
+        add("lpddr4x8-p1", "hammerR", **LPDDR4)
     else:
+        add("sdr-2rank-p2", "mixidle", nranks=2, bankbits=1, banks=(1, 2), postponing=2, **SDR)
+        add("lpddr4x8-p2", "altrows", postponing=2, **LPDDR4)
         for adv in ADV:
             for p in (1, 2, 4, 8):
                 add("sdr-p%d" % p, adv, postponing=p, **SDR)
